@@ -1216,6 +1216,85 @@ func ctrKeys(r *lib.Rng, k []byte) [][]byte {
 	return [][]byte{flip, first, last, other}
 }
 
+// zeroTail builds an honest request (dir 0) or response (dir 1, to the request
+// with identifier uid) of session s with the project's own code, choosing the
+// nonce so that the last k bytes of the ciphertext - the last bytes of the
+// datagram - are zero.
+func zeroTail(r *lib.Rng, s *session, dir int, uid []byte, k int, hdr []byte) *honest {
+	var cs, phs [][]byte
+	var key, pt []byte
+	src := ""
+	if dir == 0 {
+		uid = r.Bytes(32)
+		setTape(uid)
+		pkt, id := nts.NewRequestPacket(ntske.Data{C2sKey: s.c2s, S2cKey: s.s2c, Cookie: s.pool, Algo: s.algo})
+		setTape()
+		uid = id
+		for _, c := range pkt.Cookies {
+			cs = append(cs, c.Cookie)
+		}
+		for _, c := range pkt.CookiePlaceholders {
+			phs = append(phs, c.Cookie)
+		}
+		key = s.c2s
+		src = lib.L(BL(s.pool))
+	} else {
+		cookies := [][]byte{s.freshCookie(r)}
+		pkt := nts.NewResponsePacket(cookies, s.s2c, uid)
+		key, pt = s.s2c, pkt.Auth.PlainText
+		src = lib.L(BL(cookies), lib.B(uid))
+	}
+	if hdr == nil {
+		hdr = genHdr(r)
+	}
+	probe, panicked := goEncode(hdr, mkPacket(uid, cs, phs, key, pt), make([]byte, 16), false)
+	_, pos, ok := layout(uid, cs, phs)
+	if panicked || !ok {
+		panic("zeroTail: the packet does not encode")
+	}
+	rq := lib.NewRng(r.U64()) // the length of the search must not move r's stream
+	var nonce []byte
+	for try := 0; ; try++ {
+		if try > 1<<24 {
+			panic("zeroTail: no nonce found")
+		}
+		nonce = rq.Bytes(16)
+		ct := ownSeal(key, nonce, pt, probe[:pos])
+		z := true
+		for _, x := range ct[len(ct)-k:] {
+			z = z && x == 0
+		}
+		if z {
+			break
+		}
+	}
+	pk := 0
+	if dir == 1 {
+		pk = 1
+	}
+	out, fields, pos, ct := encodeCase("honest,zerotail", hdr, uid, cs, phs, key, pt, nonce, false, pk, src)
+	if out[len(out)-1] != 0 || len(out) != pos+24+len(ct) {
+		panic("zeroTail: the datagram does not end with the zero bytes of the ciphertext")
+	}
+	return &honest{b: out, pos: pos, nonce: nonce, ct: ct, key: key, dir: dir, uid: uid, pt: pt, fields: fields}
+}
+
+// truncTagCases: an honest datagram whose last k bytes - the end of the SIV tag /
+// ciphertext - are zero, with those k bytes cut off.  Authenticator.unpack fills
+// the missing bytes with zeros, so the shortened datagram authenticates: a known
+// finding, in a kind of its own, judged by the strict clause (only the datagram
+// that was sealed may be accepted).
+func truncTagCases(r *lib.Rng) {
+	s := newSession(r)
+	for _, k := range []int{1, 2} {
+		tg := fmt.Sprintf("nt,mut,trunctag,cut%d", k)
+		q := zeroTail(r, s, 0, nil, k, nil)
+		recvK("nts.trunctag", "", tg+",request", []*honest{q}, 0, clone(q.b[:len(q.b)-k]), s.c2s, nil)
+		p := zeroTail(r, s, 1, q.uid, k, nil)
+		recvK("nts.trunctag", "0", tg+",response", []*honest{p}, 1, clone(p.b[:len(p.b)-k]), s.s2c, q.uid)
+	}
+}
+
 func wrongKeys(r *lib.Rng, h *honest, t target) {
 	hs := []*honest{h}
 	for _, k := range badKeys(r, t.key, len(h.pt) == 0) {
@@ -1498,6 +1577,12 @@ func replay(path string) {
 			recv(c[1], parseHonests(a[0]), 1, a[1].B(), a[2].B(), a[3].B())
 		case "nts.ctrhalf":
 			recvK("nts.ctrhalf", "", c[1], parseHonests(a[0]), 0, a[1].B(), a[2].B(), nil)
+		case "nts.trunctag":
+			if len(a) == 4 {
+				recvK("nts.trunctag", "", c[1], parseHonests(a[0]), 0, a[1].B(), a[2].B(), nil)
+			} else {
+				recvK("nts.trunctag", "0", c[1], parseHonests(a[0]), 1, a[1].B(), a[2].B(), a[3].B())
+			}
 		case "nts.session":
 			recvK("nts.session", lib.V(lib.I(a[5].I()), lib.I(a[6].I())), c[1], parseHonests(a[0]), 1, a[1].B(), a[2].B(), a[3].B())
 		case "nts.encode":
@@ -1636,6 +1721,7 @@ func main() {
 	for i := 0; i < ne; i++ {
 		exportCase("nt")
 	}
+	truncTagCases(r)
 	longSession(r, 300)
 	if thorough {
 		longSession(r, 700)
